@@ -1,6 +1,6 @@
 (* Suite "runacct" (C02): PushInterpreter::run next to an independent accounting of repeated
    step() calls.  case: as suite "run" with mode 1.
-   result: (0 ((outcome state) (acct_outcome acct_state steps)))
+   result: (0 ((outcome state) (acct_outcome acct_state steps empty_step_changed)))
    "runacct.check": the accounting laws evaluated on an observed result. *)
 From Coq Require Import ZArith String List Bool.
 From PushModel Require Import Base.Sx Base.Machine Base.ListOps Base.F32 Base.F32Flocq Model.Item Model.GraphT Model.State
@@ -17,7 +17,7 @@ Definition pm_runacct (c : sx) : sx :=
           let s1 := copy_to_code s in
           sx_res (fun r : outcome * world * state * Z =>
                     let '(o, _, s', n) := r in
-                    SL [SL [sx_outcome o; sx_state s']; SL [sx_outcome o; sx_state s'; SZ n]])
+                    SL [SL [sx_outcome o; sx_state s']; SL [sx_outcome o; sx_state s'; SZ n; SZ 0]])
                  (run_loop_n p full_registry (fun _ => 0) (run_fuel s1) 0 0 w s1)
       | _, _, _, _ => sx_bad
       end
@@ -34,8 +34,8 @@ Definition pm_runacct_check (a : sx) : sx :=
       | Some s0 =>
           let lim := cfg_eval_push_limit (st_cfg s0) in
           match observed with
-          | SL [SZ 0; SL [SL [SZ o; s]; SL [SZ o2; s2; SZ n]]] =>
-              sx_bool ((o =? o2) && sx_eqb s s2 &&
+          | SL [SZ 0; SL [SL [SZ o; s]; SL [SZ o2; s2; SZ n; SZ changed]]] =>
+              sx_bool ((o =? o2) && sx_eqb s s2 && (changed =? 0) &&     (* the step on an empty EXEC stack changes nothing *)
                        ((lim <? -1) || (n <=? lim + 1)) &&
                        (negb (o =? 1) || (lim <? -1) || (n =? lim + 1)) &&
                        (negb (o =? 0) || match exec_of_state_sx s with Some [] => true | _ => false end) &&
